@@ -57,7 +57,7 @@ def gen_faults(rng, nprocs, gran, allow_root=True):
     faults = []
     nf = rng.choice([1, 1, 1, 2])
     for _ in range(nf):
-        kinds = ['KILL', 'KILL', 'KILL', 'FORK_FAIL', 'ALLOC_FAIL']
+        kinds = ['KILL', 'KILL', 'KILL', 'FORK_FAIL', 'ALLOC_FAIL', 'WAIT_ECHILD']
         if gran == 'line':
             kinds += ['RAISE', 'RAISE', 'RAISE']
         k = rng.choice(kinds)
@@ -67,6 +67,12 @@ def gen_faults(rng, nprocs, gran, allow_root=True):
             faults.append(dict(kind='RAISE', proc=rng.randrange(0 if allow_root else 1, nprocs), ykind='LINE', place=dict(u=rng.random(), inflight=rng.random() < 0.5)))
         elif k == 'FORK_FAIL':
             faults.append(dict(kind='FORK_FAIL', proc=0, n=rng.randint(1, max(1, nprocs - 1))))
+        elif k == 'WAIT_ECHILD':
+            # the exit status of a worker is lost (host application ignores SIGCHLD): usually together with a worker that fails
+            faults.append(dict(kind='WAIT_ECHILD', proc=0, n=rng.randint(1, max(1, nprocs - 1))))
+            if rng.random() < 0.75:
+                faults.append(dict(kind='KILL', proc=rng.randrange(1, nprocs), ykind='ANY', place=dict(u=rng.random(), inflight=rng.random() < 0.5)))
+                break
         else:
             faults.append(dict(kind='ALLOC_FAIL', proc=0, n=rng.randint(1, 3)))
     return faults
@@ -461,6 +467,13 @@ def judge(case, ref, outcome, info, faults):
         if owner >= 0 and info['owner_status'] == procsim.KILLED and any(faults[i]['kind'] == 'KILL' and faults[i]['proc'] == owner for i in fired_idx):
             return viol('O3-deadlock-lock-owner-killed', f'call neither returns nor raises: lock {info["dl_lock"]} is held by process {owner}, which was killed while holding it; {outcome[1]}')
         return viol('O3-deadlock', f'deadlock without a killed lock owner: {outcome[1]}')
+    only_echild = any_fault and not bomb and set(fired_kinds) == {'WAIT_ECHILD'}
+    if only_echild and outcome[0] == 'return':
+        # nothing failed, only an exit status was lost: returning the right result is as good as raising
+        d = _equal(outcome[1], ref[1], case['kind'] in ('expr', 'nested'))
+        if d:
+            return viol('O1-mismatch', 'after a lost exit status (no worker failed): ' + d)
+        return res
     if any_fault or bomb:
         if outcome[0] == 'return':
             return viol('O2-returned-after-fault', f'a fault fired ({fired_kinds}) but the call returned a value instead of raising')
